@@ -533,7 +533,7 @@ def check_roundtrip(tier, seed):
         from naunet.reactions.reaction import Reaction
         from naunet.reactiontype import ReactionType as _RT
         wins = [(10.0, -1.0), (-1.0, 300.0), (-1.0, -1.0), (5500.0, -1.0), (10.0, 41000.0), (300.0, 5000.0), (-9999.0, 9999.0), (0.0, 0.0)]
-        net = Network([Reaction(["C", "H"], ["CH"], lo, hi, 1.0e-10 * (k + 1), 0.5, 10.0 * k, _RT.GAS_TWOBODY, k + 1) for k, (lo, hi) in enumerate(wins)])
+        net = Network([Reaction(["C", "H"], ["CH"], lo, hi, 1.0e-10 * (k + 1), 0.5, 10.0 * k, _RT.GAS_TWOBODY, k) for k, (lo, hi) in enumerate(wins)])     # indices 0..n-1, as reindex() numbers
         p = os.path.join(d, "api.naunet")
         net.write(p, "naunet")
         fresh()
@@ -542,9 +542,11 @@ def check_roundtrip(tier, seed):
         if len(back.reaction_list) != len(wins):
             V(f"api-count: {len(back.reaction_list)} reactions read back, {len(wins)} written")
         else:
-            for (lo, hi), y in zip(wins, back.reaction_list):
+            for k_, ((lo, hi), y) in enumerate(zip(wins, back.reaction_list)):
                 if float(y.temp_min) != lo or float(y.temp_max) != hi:
                     V(f"api-window: declared ({lo}, {hi}), read back ({y.temp_min}, {y.temp_max})")
+                if y.idxfromfile != k_:
+                    V(f"api-index: reaction written with index {k_} is read back with index {y.idxfromfile}")
     except Exception as e:
         V(f"api-roundtrip-raises: {type(e).__name__}: {e}")
     finally:
@@ -977,7 +979,7 @@ def check_duplicates(tier, seed):
             rs, ps = list(rs), list(ps)
             rnd.shuffle(rs)
             rnd.shuffle(ps)
-            tmin, tmax = rnd.choice([(-1.0, -1.0), (10.0, 300.0), (300.0, 1000.0)])
+            tmin, tmax = rnd.choice([(-1.0, -1.0), (10.0, 300.0), (300.0, 1000.0), (10.0, 800.0), (-9999.0, 100.0), (-9999.0, 9999.0)])
             if variant == 5 and reacs and rnd.random() < 0.4:
                 reacs.append(rnd.choice(reacs))          # the very same object again (e.g. a list concatenated with itself)
                 continue
